@@ -46,19 +46,20 @@ type applyKey struct {
 }
 
 type monitors struct {
-	mu       sync.Mutex
-	rec      *mon.Recorder
-	desc     string
-	applied  map[applyKey]uint64 // M1
-	who      map[applyKey]string
-	next     map[string]uint64       // M2: node/group/incarnation -> next expected index (0 = unknown yet)
-	leaders  map[string]uint64       // M5: group/term -> sender
-	prevView map[string]*sim.Durable // M4: node/group -> durable view at the end of the previous incarnation
-	trace    []string
-	failed   bool
-	msgs     int64
-	kindsGrp func(g uuid.UUID) string
-	cl       *sim.Cluster
+	mu          sync.Mutex
+	rec         *mon.Recorder
+	desc        string
+	applied     map[applyKey]uint64 // M1
+	who         map[applyKey]string
+	next        map[string]uint64       // M2: node/group/incarnation -> next expected index (0 = unknown yet)
+	leaders     map[string]uint64       // M5: group/term -> sender
+	prevView    map[string]*sim.Durable // M4: node/group -> durable view at the end of the previous incarnation
+	trace       []string
+	failed      bool
+	msgs        int64
+	kindsGrp    func(g uuid.UUID) string
+	cl          *sim.Cluster
+	snapPending map[string]bool // M8: node/group/incarnation>peer
 }
 
 func (m *monitors) note(s string) {
@@ -130,7 +131,7 @@ func scenario(rec *mon.Recorder, c int) {
 	rec.Current(desc)
 	cl := sim.New(sim.Options{Nodes: nodes, Dir: os.Getenv("VERIF_SCRATCH") + fmt.Sprintf("/c05-%d", c), TickEvery: 5 * time.Millisecond, Seed: rec.Seed()*1000 + int64(c), SimNet: true})
 	defer cl.Close()
-	m := &monitors{cl: cl, rec: rec, desc: desc, applied: map[applyKey]uint64{}, who: map[applyKey]string{}, next: map[string]uint64{}, leaders: map[string]uint64{}, prevView: map[string]*sim.Durable{}}
+	m := &monitors{snapPending: map[string]bool{}, cl: cl, rec: rec, desc: desc, applied: map[applyKey]uint64{}, who: map[applyKey]string{}, next: map[string]uint64{}, leaders: map[string]uint64{}, prevView: map[string]*sim.Durable{}}
 	gk := func(g uuid.UUID) string {
 		if uuid.Equal(g, uuid.Nil) {
 			return "zero"
@@ -178,8 +179,40 @@ func scenario(rec *mon.Recorder, c int) {
 				}
 			}
 		}
+		// M8: every snapshot message of a Ready is followed, before the loop takes its next Ready, by a report of its
+		// outcome to raft (sent or failed) - raft keeps the follower in the snapshot state until then, and nothing
+		// else takes it out of it
+		switch point {
+		case "reportSnapshot":
+			if len(args) > 0 {
+				if to, ok := args[0].(uint64); ok {
+					m.mu.Lock()
+					delete(m.snapPending, fmt.Sprintf("%d/%s/%d>%d", n.Id, g, n.Incarnation, to))
+					m.mu.Unlock()
+					rec.Count("snapshot_outcomes_reported", 1)
+				}
+			}
+		case "afterAdvance":
+			m.mu.Lock()
+			pre := fmt.Sprintf("%d/%s/%d>", n.Id, g, n.Incarnation)
+			for k := range m.snapPending {
+				if strings.HasPrefix(k, pre) {
+					delete(m.snapPending, k)
+					m.fail("M8:snapshot-message-neither-sent-nor-reported:"+gk(g), fmt.Sprintf("node %d group %s: its Ready held a snapshot for node %s; the loop went on to its next Ready without reporting the snapshot's outcome to raft, which keeps that follower in the snapshot state for good", n.Id, gk(g), k[len(pre):]))
+					break
+				}
+			}
+			m.mu.Unlock()
+		}
 		if point == "ready" && len(args) > 0 {
 			if rd, ok := args[0].(*etcdRaft.Ready); ok {
+				for _, msg := range rd.Messages {
+					if msg.Type == raftpb.MsgSnap {
+						m.mu.Lock()
+						m.snapPending[fmt.Sprintf("%d/%s/%d>%d", n.Id, g, n.Incarnation, msg.To)] = true
+						m.mu.Unlock()
+					}
+				}
 				seen := map[uint64]bool{}
 				for _, msg := range rd.Messages {
 					if msg.Type == raftpb.MsgSnap && seen[msg.To] {
@@ -437,7 +470,7 @@ func scenario(rec *mon.Recorder, c int) {
 			time.Sleep(100 * time.Millisecond)
 			savePrev(2)
 			if err := cl.Restart(2); err != nil {
-				if strings.Contains(err.Error(), "join handshake did not return") {
+				if strings.Contains(err.Error(), "join handshake did not return") || strings.Contains(err.Error(), "Failed to join cluster") {
 					rec.Inconclusive(desc + ": the late joiner's restart handshake did not return")
 					m.failed = true
 				} else {
@@ -544,7 +577,7 @@ func scenario(rec *mon.Recorder, c int) {
 			if n.Dead() && rng.Intn(2) == 0 {
 				savePrev(i)
 				if err := cl.Restart(i); err != nil {
-					if strings.Contains(err.Error(), "join handshake did not return") {
+					if strings.Contains(err.Error(), "join handshake did not return") || strings.Contains(err.Error(), "Failed to join cluster") {
 						rec.Inconclusive(desc + ": a restarted node's join handshake did not return (member it asked had no leader)")
 						m.failed = true
 					} else {
@@ -619,7 +652,7 @@ func scenario(rec *mon.Recorder, c int) {
 		if n.Dead() {
 			savePrev(i)
 			if err := cl.Restart(i); err != nil {
-				if strings.Contains(err.Error(), "join handshake did not return") {
+				if strings.Contains(err.Error(), "join handshake did not return") || strings.Contains(err.Error(), "Failed to join cluster") {
 					rec.Inconclusive(desc + ": a restarted node's join handshake did not return")
 					m.failed = true
 				} else {
